@@ -1,0 +1,6 @@
+//go:build !verif
+
+package file
+
+// verifHook is a no-op unless the library is built with the "verif" tag.
+func verifHook(point, path string) {}
